@@ -69,3 +69,23 @@ func VerifInspectPool(n int) string {
 	}
 	return verdict
 }
+
+// VerifPoolDrain takes n states out of the pool and reports how often the
+// most frequent one of them came out (1 = every borrower got a state of its
+// own; 2 = the pool handed the same state to two borrowers). Each distinct
+// state is put back exactly once.
+func VerifPoolDrain(n int) int {
+	seen := map[*packState]int{}
+	max := 0
+	for i := 0; i < n; i++ {
+		s := packStatePool.Get().(*packState)
+		seen[s]++
+		if seen[s] > max {
+			max = seen[s]
+		}
+	}
+	for s := range seen {
+		packStatePool.Put(s)
+	}
+	return max
+}
